@@ -313,8 +313,13 @@ def check(prop, tier, seed):
         vio_lines.append('VIOLATION property=%s replay=%s%s' % (prop, rp, tail))
 
     # evidence
-    obligations = sum(r['obligations'] for r in results) + sum(k.get('obligations', 0) for k in kani_results) + sum(p.get('obligations', 0) for p in probe_results)
+    # obligations of this property: every discharged function-level VC set, plus the functions with a failure attributed
+    # to this property.  Functions whose only failures are attributed to other properties (clause tags) are excluded
+    # from both counts and listed under 'excluded_failed_elsewhere'.
+    mine = set((f['obligation'].split('/')[0], f.get('function')) for f in failures)
+    excluded = sum(r.get('error_fns', 0) for r in results) - len([1 for (u, fn) in mine if not u.startswith('kn:')])
     discharged = sum(r['discharged'] for r in results) + sum(k.get('discharged', 0) for k in kani_results) + sum(p.get('discharged', 0) for p in probe_results)
+    obligations = discharged + len(mine) + sum(k.get('obligations', 0) - k.get('discharged', 0) for k in kani_results)
     fns = []
     for r in results:
         for fn in r['functions']:
@@ -349,6 +354,7 @@ def check(prop, tier, seed):
             'functions_under_contract': fns,
             'solver_time_ms': {'z3_via_verus': sum(r.get('smt_ms', 0) for r in results), 'cbmc_via_kani_s': sum(k.get('wall_s', 0) for k in kani_results)},
             'failed_obligations': [f['obligation'] for f in failures],
+            'excluded_failed_elsewhere': max(excluded, 0),
             'inconclusive': inconclusive,
             'exhaustive': False,
         },
